@@ -226,7 +226,8 @@ class Result:
 
 
 def write_evidence(pid, tier, results, wall, level='model_checking', extra=None, exhaustive=False):
-    os.makedirs(os.path.join(VERIF, 'evidence'), exist_ok=True)
+    evdir = os.environ.get('VERIF_EVIDENCE_DIR') or os.path.join(VERIF, 'evidence')     # seeded-mutant evaluations redirect it
+    os.makedirs(evdir, exist_ok=True)
     states = sum(int(r.stats.get('paths', r.stats.get('states', 1 if r.status != 'inconclusive' else 0))) for r in results)
     transitions = sum(int(r.stats.get('steps', r.stats.get('transitions', 0))) for r in results)
     validated = sum(int(r.stats.get('validated', 0)) for r in results)
@@ -267,7 +268,7 @@ def write_evidence(pid, tier, results, wall, level='model_checking', extra=None,
         'property_id': pid, 'tier': tier, 'seed': SEED, 'level': level, 'coverage': cov,
         'assumptions': assumptions, 'wall_s': round(wall, 2), 'violations': len(viol),
     }
-    path = os.path.join(VERIF, 'evidence', pid + '.json')
+    path = os.path.join(evdir, pid + '.json')
     tmp = path + '.tmp'
     with open(tmp, 'w') as f:
         json.dump(ev, f, indent=1, default=str)
@@ -276,7 +277,7 @@ def write_evidence(pid, tier, results, wall, level='model_checking', extra=None,
 
 
 def save_replay(pid, obligation, payload):
-    d = os.path.join(VERIF, 'replay', pid)
+    d = os.path.join(os.environ.get('VERIF_REPLAY_DIR') or os.path.join(VERIF, 'replay'), pid)
     os.makedirs(d, exist_ok=True)
     p = os.path.join(d, obligation.replace('/', '_') + '.json')
     with open(p, 'w') as f:
